@@ -3,7 +3,8 @@
 (* C03: a non-malleable satisfaction of a sane descriptor is the ONLY      *)
 (* witness a third party can get accepted under standardness rules.        *)
 (* Input: the `sat` observations.  For every distinct (witness, env) the   *)
-(* library produced in non-malleable mode for a sane script, TLC searches  *)
+(* library produced in non-malleable mode (get_satisfaction, and plan +     *)
+(* Plan::satisfy) for a sane script, TLC searches                           *)
 (* the adversary's space: all stacks of length <= |w|+1 over               *)
 (*   elements of the original witness (the only signatures a third party   *)
 (*   sees), empty, 0x01, 32 zero bytes, every preimage, every public key,  *)
@@ -44,7 +45,7 @@ Neighbours(A, s) ==
 
 JudgeEvent(ev) ==
   LET ctx == ev.ctx
-      cands == {j \in 1..Len(ev.res) : ev.res[j].r = "ok" /\ ev.res[j].mode = "nonmall" /\ ev.res[j].route = "desc"}
+      cands == {j \in 1..Len(ev.res) : ev.res[j].r = "ok" /\ ev.res[j].mode = "nonmall" /\ ev.res[j].route \in {"desc", "plan"}}
       \* distinct (stack, env) pairs, remembered with one representative index
       key(j) == <<ev.res[j].inp.stack, ev.res[j].w.env>>
       reps == {j \in cands : \A q \in cands : key(q) = key(j) => j <= q}
